@@ -457,6 +457,59 @@ Section Value.
     literal_eval (rstrip_semi v0).
 End Value.
 
+(* ---------------------------------------------------------------- bot intent `$name`: the utterance taken from the context *)
+
+(* what a context variable can hold, as far as generate_bot_message is concerned *)
+Inductive ctxval :=
+| CStr (s : text)
+| CNonStr (is_truthy : bool).      (* a dict / list / number / None ...: anything that is not a str *)
+
+(* `bot_utterance = context[name]; if bot_utterance: clean_utterance_content(..) else: fallback`.
+   [clean_guarded] = clean_utterance_content only touches str values (it does NOT in the source:
+   `.replace` on a non-str raises AttributeError, inside the action).  The result is the `text`
+   field of the BotMessage event: a str ([inl]) or the non-str object itself ([inr tt]). *)
+Definition ctx_utterance (clean_guarded : bool) (v : ctxval) : res (text + unit) :=
+  match v with
+  | CStr s => if truthy s then (let! c := clean_utterance_content s in Ok (inl c)) else Ok (inl FALLBACK_MESSAGE)
+  | CNonStr true => if clean_guarded then Ok (inr tt) else Err AttributeError
+  | CNonStr false => Ok (inl FALLBACK_MESSAGE)
+  end.
+
+(* ---------------------------------------------------------------- v2: which generated values are kept *)
+
+Inductive atom := AStr | AInt | AFloat | ABool | ANoneV | ABytes | AComplex | AEllipsis.
+Inductive pyv :=
+| PAtom (a : atom)
+| PSeq (items : list pyv)                (* list / tuple / set / frozenset *)
+| PDict (kvs : list (pyv * pyv)).
+
+(* what the state of a conversation can hold (serialization.encode_to_dict + json) *)
+Definition atom_storable (a : atom) : bool :=
+  match a with ABytes | AComplex | AEllipsis => false | _ => true end.
+
+(* every atom of a value, dict KEYS included *)
+Fixpoint atoms (v : pyv) : list atom :=
+  match v with
+  | PAtom a => [a]
+  | PSeq l => (fix go (l : list pyv) : list atom := match l with [] => [] | x :: r => atoms x ++ go r end) l
+  | PDict kvs => (fix go (l : list (pyv * pyv)) : list atom :=
+                    match l with [] => [] | (k, x) :: r => atoms k ++ atoms x ++ go r end) kvs
+  end.
+
+(* actions/v2_x/generation.py _is_supported_value; [check_keys] is read from the source *)
+Fixpoint supported_value (check_keys : bool) (v : pyv) : bool :=
+  match v with
+  | PAtom a => atom_storable a
+  | PSeq l => (fix go (l : list pyv) : bool :=
+                 match l with [] => true | x :: r => supported_value check_keys x && go r end) l
+  | PDict kvs => (fix go (l : list (pyv * pyv)) : bool :=
+                    match l with
+                    | [] => true
+                    | (k, x) :: r => (if check_keys then supported_value check_keys k else true)
+                                     && supported_value check_keys x && go r
+                    end) kvs
+  end.
+
 (* ---------------------------------------------------------------- sanity *)
 Example ex_fnl : get_first_nonempty_line (s2t "
    user hello  ") = Ok (Some (s2t "user hello")).
